@@ -120,7 +120,14 @@ def rule_r1(chk, p, t, rid="C14.R1"):
                 cur = par
             manual = None
             if not wrapped and cur in pm and isinstance(pm[cur], ast.Assign) and cur is pm[cur].value and isinstance(pm[cur].targets[0], ast.Name):
-                manual = _manual_wrap(fn.node, pm[cur].targets[0].id)
+                dname = pm[cur].targets[0].id
+                manual = _manual_wrap(fn.node, dname)
+                if manual is None:
+                    # the raw difference is only a temporary when every use of it is the argument of a wrap
+                    uses = [x for x in ast.walk(fn.node) if isinstance(x, ast.Name) and x.id == dname and isinstance(x.ctx, ast.Load)]
+                    stores = [x for x in ast.walk(fn.node) if isinstance(x, ast.Name) and x.id == dname and isinstance(x.ctx, ast.Store)]
+                    if uses and len(stores) == 1 and all(isinstance(pm.get(u), ast.Call) and u in pm[u].args and (call_name(pm[u]) in WRAP_NEG_PI_PI or call_name(pm[u]) in RESIDUAL_FUNCS) for u in uses):
+                        wrapped = True
             if manual is not None and manual == {"upper", "lower"}:
                 wrapped = True
             if wrapped:
